@@ -211,3 +211,148 @@ func TestC35_EditHistories(t *testing.T) {
 		},
 		Check: c35Check})
 }
+
+// ---- Link over files of one package that declare the same names ----
+
+type c35LinkCase struct {
+	NFiles int
+	// Steps[s][f] = the declarations file f has after step s (indices into c35Decls); step 0 is the initial state
+	Steps [][][]int
+	Par   int
+}
+
+var c35Decls = []string{
+	"message Zebraaaa {}",
+	"message Mmmmmmmm { message Nnnnnnnn {} }",
+	"message Mmmmmmmm { message Nnnnnnnn { message Oooooooo {} } enum Pppppppp { PPPPPPPP_ZERO = 0; } }",
+	"message Alphaaaa { int32 fieldddd = 1; }",
+	"enum Eeeeeeee { EEEEEEEE_ZERO = 0; }",
+	"service Ssssssss { }",
+	"message Bb { }",
+}
+
+func c35LinkText(decls []int) string {
+	var sb strings.Builder
+	sb.WriteString("syntax = \"proto3\";\npackage pkgone;\n")
+	for _, d := range decls {
+		sb.WriteString(c35Decls[d] + "\n")
+	}
+	return sb.String()
+}
+
+func c35LinkRun(s *expSession, ws source.Workspace) (string, error) {
+	var out string
+	var err error
+	func() {
+		defer func() {
+			if p := recover(); p != nil {
+				err = fmt.Errorf("panic escaped Run(Link): %v", p)
+			}
+		}()
+		_, rep, rerr := incremental.Run(context.Background(), s.exec, queries.Link{Opener: s.openers, Session: s.sess, Workspace: ws})
+		if rerr != nil {
+			err = rerr
+			return
+		}
+		out = strings.Join(diagLines(rep), "\n")
+	}()
+	return out, err
+}
+
+func TestC35_LinkDuplicates(t *testing.T) {
+	ev.Run(t, ev.Spec[c35LinkCase]{ID: "C35", Name: "LinkDuplicates", Quick: 150, Thorough: 6000,
+		Rule: "2-4 files of ONE package whose contents are drawn from seven declarations (messages with nested messages and enums, an enum, a service; names longer than five characters, which go through the intern table, and one short name), so that several files declare the same names; a history of 1-5 steps each rewrites 1-2 files to another selection, evicts their queries.File keys (EvictWithCleanup) and runs queries.Link over the whole workspace on the long-lived executor+session and on a brand-new one; oracle: the two reports render identically (the duplicate-symbol diagnostics of Link included); non-trivial = some name is declared by two files after the last step and the history has >= 2 steps",
+		Gen: func(t *rapid.T) c35LinkCase {
+			c := c35LinkCase{NFiles: 2 + gen.Uniform(t, 3, "nfiles"), Par: gen.Pick(t, []int{1, 2, 4}, "par")}
+			pickDecls := func() []int {
+				var out []int
+				hasM := false
+				for d := range c35Decls {
+					if (d == 1 || d == 2) && hasM {
+						continue
+					}
+					if gen.Pct(t, 40, "decl") {
+						out = append(out, d)
+						hasM = hasM || d == 1 || d == 2
+					}
+				}
+				return rapid.Permutation(out).Draw(t, "declorder")
+			}
+			first := make([][]int, c.NFiles)
+			for f := range first {
+				first[f] = pickDecls()
+			}
+			c.Steps = append(c.Steps, first)
+			for s := gen.Uniform(t, 5, "nsteps") + 1; s > 0; s-- {
+				prev := c.Steps[len(c.Steps)-1]
+				next := make([][]int, c.NFiles)
+				copy(next, prev)
+				for k := 1 + gen.Uniform(t, 2, "nrewrite"); k > 0; k-- {
+					next[gen.Uniform(t, c.NFiles, "rewrite")] = pickDecls()
+				}
+				c.Steps = append(c.Steps, next)
+			}
+			return c
+		},
+		Check: func(c c35LinkCase, r *ev.Rec) error {
+			name := func(f int) string { return fmt.Sprintf("f%d.proto", f) }
+			cur := map[string]string{}
+			var paths []string
+			for f := 0; f < c.NFiles; f++ {
+				cur[name(f)] = c35LinkText(c.Steps[0][f])
+				paths = append(paths, name(f))
+			}
+			long := newExpSession(cur, c.Par)
+			ws := source.NewWorkspace(paths...)
+			dup := false
+			for s, state := range c.Steps {
+				if s > 0 {
+					var keys []any
+					var changed []int
+					for f := 0; f < c.NFiles; f++ {
+						if text := c35LinkText(state[f]); text != cur[name(f)] {
+							changed = append(changed, f)
+							keys = append(keys, queries.File{Opener: long.openers, Path: name(f), ReportError: true}, queries.File{Opener: long.openers, Path: name(f), ReportError: false})
+						}
+					}
+					long.exec.EvictWithCleanup(keys, func() {
+						for _, f := range changed {
+							text := c35LinkText(state[f])
+							long.files.Get()[name(f)] = source.NewFile(name(f), text)
+							cur[name(f)] = text
+						}
+					})
+				}
+				inc, err := c35LinkRun(long, ws)
+				if err != nil {
+					return fmt.Errorf("step %d: %v", s, err)
+				}
+				fresh, err := c35LinkRun(newExpSession(cur, c.Par), source.NewWorkspace(paths...))
+				if err != nil {
+					return fmt.Errorf("step %d (fresh): %v", s, err)
+				}
+				if inc != fresh {
+					return fmt.Errorf("after step %d the long-lived executor's Link reports\n%s\nbut a brand-new executor and session on the same files report\n%s\ncurrent files:\n%s", s, indent(inc), indent(fresh), showFiles(cur))
+				}
+				seen := map[int]int{}
+				for f := range state {
+					for _, d := range state[f] {
+						k := d
+						if k == 2 {
+							k = 1
+						}
+						seen[k]++
+					}
+				}
+				dup = false
+				for _, n := range seen {
+					dup = dup || n > 1
+				}
+			}
+			r.Case(ev.JSONFP(c), dup && len(c.Steps) >= 3, fmt.Sprintf("files=%d", c.NFiles), fmt.Sprintf("steps=%d", len(c.Steps)-1))
+			if dup && r.WantSample() {
+				r.Sample(c)
+			}
+			return nil
+		}})
+}
